@@ -349,6 +349,44 @@ static int bufs_extended(int i0, int i1) {
   return 0;
 }
 
+// forComponents on directly created zones that share one processor and are used alternately (documented as supported):
+// both TimeZone values exist before either is used; answers are compared with those of zones that have a processor of
+// their own
+template <typename ZI, typename ZP, typename ZONE>
+static int wallshared(const ZI* const* reg, int n) {
+  long nq = 0, nbad = 0;
+  std::string first;
+  for (int i = 0; i < n; i++) {
+    int j = (i + 7) % n;
+    ZP shared, pa, pb;
+    TimeZone a = TimeZone::forZoneInfo(reg[i], &shared), b = TimeZone::forZoneInfo(reg[j], &shared);
+    TimeZone ra = TimeZone::forZoneInfo(reg[i], &pa), rb = TimeZone::forZoneInfo(reg[j], &pb);
+    static const int years[] = {2001, 2012, 2021, 2037};
+    for (int y : years) for (int mo = 1; mo <= 12; mo++) for (int d : {1, 9, 27}) for (int h : {2, 13}) {
+      ZonedDateTime za = ZonedDateTime::forComponents((int16_t) y, (uint8_t) mo, (uint8_t) d, (uint8_t) h, 30, 0, a);
+      ZonedDateTime zb = ZonedDateTime::forComponents((int16_t) y, (uint8_t) mo, (uint8_t) d, (uint8_t) h, 30, 0, b);
+      ZonedDateTime ea = ZonedDateTime::forComponents((int16_t) y, (uint8_t) mo, (uint8_t) d, (uint8_t) h, 30, 0, ra);
+      ZonedDateTime eb = ZonedDateTime::forComponents((int16_t) y, (uint8_t) mo, (uint8_t) d, (uint8_t) h, 30, 0, rb);
+      nq += 2;
+      bool ok = za.isError() == ea.isError() && zb.isError() == eb.isError()
+          && (za.isError() || (za.toEpochSeconds() == ea.toEpochSeconds() && za.timeOffset().toMinutes() == ea.timeOffset().toMinutes()))
+          && (zb.isError() || (zb.toEpochSeconds() == eb.toEpochSeconds() && zb.timeOffset().toMinutes() == eb.timeOffset().toMinutes()));
+      if (!ok) {
+        nbad++;
+        if (first.empty()) {
+          char buf[400];
+          snprintf(buf, sizeof buf, "{\"zones\":[%s,%s],\"wall\":[%d,%d,%d,%d,30],\"shared\":[%ld,%d,%ld,%d],\"own\":[%ld,%d,%ld,%d]}", jstr((const char*) ZONE(reg[i]).name()).c_str(), jstr((const char*) ZONE(reg[j]).name()).c_str(), y, mo, d, h,
+                   (long) za.toEpochSeconds(), (int) za.timeOffset().toMinutes(), (long) zb.toEpochSeconds(), (int) zb.timeOffset().toMinutes(),
+                   (long) ea.toEpochSeconds(), (int) ea.timeOffset().toMinutes(), (long) eb.toEpochSeconds(), (int) eb.timeOffset().toMinutes());
+          first = buf;
+        }
+      }
+    }
+  }
+  printf("{\"wallshared\":1,\"nq\":%ld,\"nbad\":%ld,\"first\":%s}\n", nq, nbad, first.empty() ? "null" : first.c_str());
+  return 0;
+}
+
 int main(int argc, char** argv) {
   if (argc < 3) { fprintf(stderr, "usage\n"); return 2; }
   std::string cmd = argv[1];
@@ -371,6 +409,10 @@ int main(int argc, char** argv) {
     return cfgscan<extended::ZoneInfo, ExtendedZoneProcessor, ExtendedZone, ExtendedZoneManager<2>>(zonedbx::kZoneRegistry, zonedbx::kZoneRegistrySize, a, b, grid, t0, t1);
   }
   if (cmd == "bufs" && argc >= 5) return bufs_extended(atoi(argv[3]), atoi(argv[4]));
+  if (cmd == "wallshared") {
+    if (basic) return wallshared<basic::ZoneInfo, BasicZoneProcessor, BasicZone>(zonedb::kZoneRegistry, zonedb::kZoneRegistrySize);
+    return wallshared<extended::ZoneInfo, ExtendedZoneProcessor, ExtendedZone>(zonedbx::kZoneRegistry, zonedbx::kZoneRegistrySize);
+  }
   if (cmd == "wallraw") { g_wall_raw = true; cmd = "wall"; }
   if (cmd == "wall") {
     if (basic) return wall<basic::ZoneInfo, BasicZoneProcessor, BasicZone>(zonedb::kZoneRegistry, zonedb::kZoneRegistrySize);
